@@ -18,9 +18,17 @@ theorem guards_as_extracted :
     asyncioIdleFireClosesProtocolThenTransport = true ∧ trioIdleFireClosesProtocolThenTransport = true ∧
     asyncioReaderEndStopsIdle = true ∧ trioReaderEndStopsIdle = true ∧
     h11ClosedSetsFlag = true ∧ h11ClosedClosesStream = true ∧ h11ClosedReleasesReader = true ∧ pausedBreaksWhenClosed = true ∧
-    h2StreamClosedIgnoresUnknown = true ∧
+    h2StreamClosedIgnoresUnknown = true ∧ h2StreamClosedAlwaysUpdates = true ∧
     priorIdleBeforeData = true ∧ wrapperUpdatedSites = ["handle:True"] ∧ h11RecycleIdleUnconditional = true ∧
     trioCloseToleratesBusy = true ∧ trioCloseToleratesBroken = true ∧ trioCloseToleratesClosed = true ∧ trioCloseAlwaysCloses = true := by decide
+
+/-- the expression each worker hands to `asyncio.wait_for` / `trio.move_on_after` around the idle task's wait is the configured
+    `keep_alive_timeout` itself, for every value of it - 0 is a timeout of 0 (expires at once), not "no timeout" -/
+theorem idle_wait_is_keep_alive_timeout (T : Nat) : asyncioIdleWait T = some T ∧ trioIdleWait T = some T := ⟨rfl, rfl⟩
+
+/-- … hence in every configuration (protocol, worker, capacity, every `keep_alive_timeout ≥ 0`) the idle task's wait is limited
+    by exactly that value -/
+theorem wait_is_configured_timeout (c : Cfg) : c.wait = some c.T := Cfg.wait_eq c
 
 /-- **timer_armed_implies_not_busy**: whenever the idle timer is armed no request is in progress and no WebSocket is open,
     so the timer never closes a busy connection -/
@@ -79,9 +87,45 @@ theorem idle_close_time (cfg : Cfg) (ops : List Op) (s : St) (hr : run (init cfg
     · simp at hs'
     · rename_i hg
       simp only [Option.some.injEq] at hs'; subst hs'
-      simp only [Bool.or_eq_true, not_or, Bool.and_eq_true, decide_eq_true_eq, not_and, Nat.not_lt] at hg
+      simp only [Cfg.wait_eq, Option.isSome_some, Bool.true_and, Bool.or_eq_true, not_or, Bool.and_eq_true, decide_eq_true_eq, not_and, Nat.not_lt] at hg
       refine ⟨by simp; omega, ?_⟩
       intro ht; have := hg.1 ht; omega
+
+/-- **idle_closes_at_T**, for every `keep_alive_timeout` T ≥ 0 (0 included): on a connection without registered streams whose
+    timer is armed, the deadline is (start of idleness) + T with T the configured value itself, the start lies in the past and
+    the deadline not; the expiry step is enabled exactly from `armedAt + T` on (or at once during shutdown), it closes the
+    transport at that instant - which without shutdown is `armedAt + T` - and the clock cannot pass `armedAt + T` -/
+theorem idle_closes_at_T (cfg : Cfg) (ops : List Op) (s : St) (hr : run (init cfg) ops = some s) (d : Nat)
+    (hd : s.timer = some d) (hl : s.live = []) (hc : s.closedByServer = false) (hb : s.cont .timer = none) :
+    d = s.armedAt + s.cfg.T ∧ s.armedAt ≤ s.now ∧ s.now ≤ s.armedAt + s.cfg.T ∧
+    ((step s .timerFire).isSome = (decide (s.armedAt + s.cfg.T ≤ s.now) || s.terminated)) ∧
+    (∀ s', step s .timerFire = some s' → s'.closedByServer = true ∧ s'.closeAt = some s.now ∧ s'.timer = none ∧
+        (s.terminated = false → s.now = s.armedAt + s.cfg.T)) ∧
+    (∀ k s', step s (.tick k) = some s' → s'.now = s.now + k ∧ s.now + k ≤ s.armedAt + s.cfg.T ∧ (s.terminated = true → k = 0)) := by
+  have hI := reachable_inv cfg ops s hr
+  have hdl := hI.dl d hd
+  obtain ⟨h1, h2, h3⟩ := idle_close_time cfg ops s hr d hd hl hc hb
+  refine ⟨hdl, hI.al d hd, by have := hI.nl d hd; omega, by rw [h1, hdl], h2, ?_⟩
+  intro k s' hs'
+  have h4 := h3 k s' hs'
+  have hn : s'.now = s.now + k := by
+    simp only [step, hd] at hs'
+    split at hs'
+    · simp at hs'
+    · simp only [Option.some.injEq] at hs'; subst hs'; rfl
+  exact ⟨hn, by omega, h4.2⟩
+
+/-- **keep-alive disabled** (`keep_alive_timeout = 0`): an idle connection is closed at once - whenever the timer is armed on a
+    connection without streams, its expiry is enabled now and no time can pass first (before the first head, between keep-alive
+    requests, on an HTTP/2 connection whose last stream has ended) -/
+theorem keep_alive_zero_closes_at_once (cfg : Cfg) (ops : List Op) (s : St) (hr : run (init cfg) ops = some s) (d : Nat)
+    (hd : s.timer = some d) (hl : s.live = []) (hc : s.closedByServer = false) (hb : s.cont .timer = none) (h0 : s.cfg.T = 0) :
+    (step s .timerFire).isSome = true ∧ (∀ s', step s .timerFire = some s' → s'.closeAt = some s.now) ∧
+    (∀ k s', step s (.tick k) = some s' → k = 0) := by
+  obtain ⟨_, ha, hn, hf, hcl, ht⟩ := idle_closes_at_T cfg ops s hr d hd hl hc hb
+  refine ⟨?_, fun s' hs' => (hcl s' hs').2.1, ?_⟩
+  · rw [hf]; simp; left; omega
+  · intro k s' hs'; have := (ht k s' hs').2.1; omega
 
 /-- **partial_head_times_out**: bytes that do not complete a request head (a read after which the parser needs more
     data) leave the armed timer and its deadline untouched -/
@@ -132,6 +176,42 @@ theorem late_stream_closed_changes_nothing (s : St) (w : Who) (i : Nat) (h : s.l
   have ha : s.h2ClosedApplies i = false := by simp only [St.h2ClosedApplies, h2StreamClosedIgnoresUnknown, if_true]; exact h
   simp only [St.run, FUEL, exec, ha]
   rfl
+
+/-- **HTTP/2: the end of a stream always reports the connection's idleness**: for a registered stream on a connection that is not
+    closed, what follows `_close_stream` in `stream_send(StreamClosed)` ends with `send(Updated(idle=idle))` whether or not the
+    shutdown GOAWAY was written before it (`h2StreamClosedAlwaysUpdates`, extracted: the `if not self.closed:` is a statement of
+    its own, not an `elif` of the GOAWAY branch) -/
+theorem h2_stream_closed_always_updates (s : St) (hp : s.cfg.proto = .h2) (hc : s.pclosed = false) :
+    (afterCloseP s).1 = s ∧
+    (afterCloseP s).2 = (if s.live.all (fun j => (s.inst j).idle) && s.terminated then [Instr.write] else []) ++ [.idleUpdate] := by
+  have hg : h2StreamClosedAlwaysUpdates = true := by decide
+  simp [afterCloseP, hp, hc, hg]
+
+/-- … and that `Updated` restarts the timer when every remaining stream is idle (deadline now + T), stops it otherwise -/
+theorem idle_update_drives_timer (f : Nat) (s : St) (w : Who) (rest : List Instr) :
+    exec (f + 1) s w (.idleUpdate :: rest) =
+      exec f (if s.live.all (fun j => (s.inst j).idle) then s.armTimer else s.stopTimer) w rest ∧
+    s.armTimer.timer = some (s.now + s.cfg.T) ∧ s.armTimer.armedAt = s.now := by
+  simp [exec, St.armTimer, St.emit]
+
+/-- **the last stream ends after shutdown has begun** (HTTP/2, asyncio; trio differs only in the checkpoint of the write, see the
+    witnesses): the GOAWAY is written, the timer - stopped since the request arrived - is restarted, and because `terminated` is
+    set its expiry is enabled at once while no time may pass: the connection is closed now, whatever the client makes of the
+    GOAWAY -/
+theorem shutdown_last_stream_closes_at_once (s : St) (w : Who) (hp : s.cfg.proto = .h2) (ha : s.cfg.trio = false) (hc : s.pclosed = false)
+    (hl : s.live = []) (ht : s.terminated = true) (ho : s.closedByServer = false) (hf : s.failWrites = false) (hfa : s.failAt = none)
+    (hw : s.wblocked = none) (hpw : s.wpaused = false) (hb : s.cont .timer = none) :
+    (s.run w [.afterClose]).timer = some (s.now + s.cfg.T) ∧
+    (step (s.run w [.afterClose]) .timerFire).isSome = true ∧
+    (∀ k, 0 < k → step (s.run w [.afterClose]) (.tick k) = none) := by
+  have hg : h2StreamClosedAlwaysUpdates = true := by decide
+  have e : s.run w [.afterClose] = ({ s with wc := s.wc + 1 }.emit [.write]).armTimer := by
+    simp [St.run, FUEL, exec, afterCloseP, hp, ha, hc, hl, ht, ho, hf, hfa, hw, hpw, hg, St.writeDue, St.emit]
+  rw [e]
+  refine ⟨by simp [St.armTimer, St.emit], ?_, ?_⟩
+  · simp [step, St.armTimer, St.emit, ht, hb]
+  · intro k hk
+    simp [step, St.armTimer, St.emit, ht, hk]
 
 /-- **the end of a response restarts the idle timer whatever the parser still holds** (HTTP/1): request and response complete,
     nothing registered, not closed, no shutdown - the rest of `stream_send(StreamClosed)` recycles the connection, releases a
@@ -240,6 +320,23 @@ example : (run (init { trio := true, T := 1000 }) blockedWriterClosed).map
 example : (run (init { T := 1000 }) [.pauseWrites, .read, .head {}, .needData, .appSend 0 (.start false), .tick 300, .read, .protoError,
       .readerSeesClose, .tick 100000]).map
     (fun s => (s.closeAt, s.wblocked == some (.app 0), s.handlerReady, (s.inst 0).discPuts)) = some (some 300, true, false, 1) := by decide
+
+/-- HTTP/2, shutdown begins at 1 s while a request is being served, its response ends at 3 s: GOAWAY, the timer is restarted and
+    - `terminated` being set - fires at once: the connection is closed at 3 s although the client, ignoring the GOAWAY, keeps it
+    open; no time may pass first (asyncio, trio) -/
+example : (run (init { proto := .h2, T := 5000 }) [.read, .head {}, .h2eom 0, .needData, .appRecv 0, .tick 1000, .terminate, .tick 2000,
+      .appSend 0 (.start false), .appSend 0 (.body false true), .resume (.app 0), .timerFire]).map
+    (fun s => (s.closeAt, s.timer, (s.inst 0).access)) = some (some 3000, none, 1) := by decide
+example : (run (init { proto := .h2, T := 5000 }) [.read, .head {}, .h2eom 0, .needData, .appRecv 0, .tick 1000, .terminate, .tick 2000,
+      .appSend 0 (.start false), .appSend 0 (.body false true), .resume (.app 0), .tick 1]).isNone = true := by decide
+/-- keep-alive disabled (T = 0): nothing arrives - closed at 0, no time can pass first; a request that arrived together with the
+    connection is served (its head stopped the timer before it ran), and the connection is closed the instant its response ends -/
+example : (run (init { T := 0 }) [.timerFire, .readerSeesClose, .handlerExit]).map (fun s => (s.closeAt, s.doneAt)) = some (some 0, some 0) := by decide
+example : (run (init { T := 0 }) [.tick 1]).isNone = true := by decide
+example : (run (init { T := 0 }) [.read, .head {}, .eom, .needData, .appRecv 0, .tick 700, .appSend 0 (.start false), .appSend 0 (.body false true),
+      .timerFire]).map (fun s => (s.closeAt, s.timer, (s.inst 0).access)) = some (some 700, none, 1) := by decide
+example : (run (init { T := 0 }) [.read, .head {}, .eom, .needData, .appRecv 0, .tick 700, .appSend 0 (.start false), .appSend 0 (.body false true),
+      .tick 1]).isNone = true := by decide
 
 /-- idle connection: nothing arrives, closed at exactly T; the handler is done at the same instant -/
 example : (run (init { T := 5000 }) [.tick 5000, .timerFire, .readerSeesClose, .handlerExit]).map (fun s => (s.closeAt, s.doneAt)) =
